@@ -119,3 +119,9 @@ def traffic_segment_round_trips_bounded(chunk):
             else:
                 ensures("two-byte-payload", ok)
     cover("reached-end", True)
+
+
+# the simulator serves any requested range of the loaded block (chain contract shared with C01)
+from contracts import c01_transfer
+harness(prop="C19", target="geckolib.utils.simulator:GeckoSimulator._on_status_block", loops=["sim_chain_loop"],
+        name="simulator_serves_any_range_of_the_block_unchanged")(c01_transfer.simulator_produces_the_chain)
